@@ -118,6 +118,10 @@ def gen_history(rng, pool, with_restore=True, n_cycles=None, norecalc=False, lat
             for _ in range(int(rng.choice([1, 1, 2]))):
                 p = 'p%d' % int(rng.integers(0, 3))
                 ops.append(('X', p, 1))
+        if rng.random() < 0.25 and any(o[0] == 'S' for o in ops):
+            # another attenuation on the same object, then bake / same source / exchange again
+            lastx = [o for o in ops if o[0] == 'X'][-1]
+            ops += [('A', 'a%d' % int(rng.integers(0, 2))), ('B',), ('I', src), ('X', lastx[1], 1)]
         if norecalc and rng.random() < 0.4:
             # ask again with other parameters but WITHOUT recalculate: the histogram is kept
             last = [o for o in ops if o[0] == 'X'][-1][1]
